@@ -1,0 +1,22 @@
+// Copyright 2026 The OWASP Coraza contributors
+// SPDX-License-Identifier: Apache-2.0
+
+//go:build verif
+
+package verifhooks
+
+import (
+	"github.com/corazawaf/coraza/v3/experimental/plugins/plugintypes"
+	"github.com/corazawaf/coraza/v3/internal/operators"
+	"github.com/corazawaf/coraza/v3/internal/transformations"
+)
+
+// Transformation returns the registered transformation with the given name.
+func Transformation(name string) (plugintypes.Transformation, error) {
+	return transformations.GetTransformation(name)
+}
+
+// Operator builds the registered operator with the given name.
+func Operator(name string, opts plugintypes.OperatorOptions) (plugintypes.Operator, error) {
+	return operators.Get(name, opts)
+}
